@@ -6,8 +6,10 @@ import (
 	"bytes"
 	"errors"
 	"fmt"
+	"io"
 	"reflect"
 	"strings"
+	"testing/iotest"
 	"unicode"
 
 	"github.com/go-json-experiment/json"
@@ -440,6 +442,24 @@ func RunDup(c DupCase) error {
 	}
 	if errors.Is(e1, jsontext.ErrDuplicateName) {
 		rec.Class("err-is-ErrDuplicateName")
+	}
+
+	// 1a. the same text delivered one byte at a time (the two spellings of the name are then unescaped
+	// across buffer refills) and in two halves: rejection must not depend on how the text arrives
+	for _, rd := range []func() io.Reader{
+		func() io.Reader { return iotest.OneByteReader(bytes.NewReader(b.text)) },
+		func() io.Reader {
+			return io.MultiReader(bytes.NewReader(b.text[:len(b.text)/2]), bytes.NewReader(b.text[len(b.text)/2:]))
+		},
+	} {
+		vs := reflect.New(typ)
+		var es error
+		if p := rt.Guard(func() { es = json.UnmarshalRead(rd(), vs.Interface(), c.opts()...) }); p != nil {
+			return fmt.Errorf("UnmarshalRead panicked: %v\ntext %s\ntype %s", p, b.text, sig)
+		}
+		if es == nil {
+			return fmt.Errorf("duplicate member accepted under default options by UnmarshalRead over a reader delivering the text in pieces, rejected by Unmarshal (target %s, %s)\ntext %s\ntype %s", b.kind, b.why, b.text, sig)
+		}
 	}
 
 	// 1b. the same into a pre-populated target (maps and structs already hold entries)
